@@ -830,6 +830,97 @@ func strShape(w *World, v ssa.Value, depth int) []string {
 	return []string{"\x00"}
 }
 
+// opaqueDescs describes, in order, the non-constant parts of a string expression: a method of a
+// module type ("method (*T).ID"), a field ("field UID"), a parameter ("parameter"), else "?".
+func opaqueDescs(w *World, v ssa.Value, depth int) []string {
+	v = stripConv(v)
+	if depth > 6 {
+		return []string{"?"}
+	}
+	switch x := v.(type) {
+	case *ssa.Const:
+		return nil
+	case *ssa.BinOp:
+		if x.Op == token.ADD {
+			return append(opaqueDescs(w, x.X, depth+1), opaqueDescs(w, x.Y, depth+1)...)
+		}
+	case *ssa.Parameter:
+		return []string{"a parameter"}
+	case *ssa.Call:
+		cc := x.Common()
+		if callName(cc) == "fmt.Sprintf" && len(cc.Args) >= 2 {
+			var out []string
+			for _, el := range sliceLiteralElems(cc.Args[1]) {
+				if el == nil {
+					out = append(out, "?")
+					continue
+				}
+				if _, isC := stripConv(el).(*ssa.Const); isC {
+					out = append(out, "?")
+					continue
+				}
+				d := opaqueDescs(w, el, depth+1)
+				if len(d) == 1 {
+					out = append(out, d[0])
+				} else {
+					out = append(out, "?")
+				}
+			}
+			return out
+		}
+		if cc.IsInvoke() {
+			d := "method " + cc.Method.Name()
+			// getters among the implementations stand for the field they return
+			for _, impl := range w.resolveInvoke(cc) {
+				if impl.Blocks == nil || !w.inModule(impl) {
+					continue
+				}
+				rets := returnsOf(impl)
+				if len(rets) == 1 && len(rets[0].Results) == 1 {
+					if fd := opaqueDescs(w, rets[0].Results[0], depth+1); len(fd) == 1 && strings.HasPrefix(fd[0], "field ") {
+						d += "|" + fd[0]
+					}
+				}
+			}
+			return []string{d}
+		}
+		if f := cc.StaticCallee(); f != nil && f.Signature.Recv() != nil {
+			// a getter stands for the field it returns
+			if f.Blocks != nil && w.inModule(f) {
+				rets := returnsOf(f)
+				if len(rets) == 1 && len(rets[0].Results) == 1 {
+					if d := opaqueDescs(w, rets[0].Results[0], depth+1); len(d) == 1 && strings.HasPrefix(d[0], "field ") {
+						return []string{"method " + f.Name() + "|" + d[0]}
+					}
+				}
+			}
+			return []string{"method " + f.Name()}
+		}
+		return []string{"?"}
+	case *ssa.UnOp:
+		if _, fld := fieldLoad(x); fld != nil {
+			return []string{"field " + fld.Name()}
+		}
+	case *ssa.Field:
+		if _, fld := fieldLoad(x); fld != nil {
+			return []string{"field " + fld.Name()}
+		}
+	}
+	return []string{"?"}
+}
+
+// descCompatible: two descriptions (alternatives separated by '|') share an alternative.
+func descCompatible(a, b string) bool {
+	for _, x := range strings.Split(a, "|") {
+		for _, y := range strings.Split(b, "|") {
+			if x == y {
+				return true
+			}
+		}
+	}
+	return false
+}
+
 func mergeShape(parts []string) []string {
 	var out []string
 	for _, p := range parts {
@@ -986,6 +1077,17 @@ func c18SourceAndHash(w *World, r *Report, byFn map[*ssa.Function][]provSite) {
 				if shapeString(ss.Shape) != shapeString(ref.Shape) {
 					ok = false
 					msg = fmt.Sprintf("%s assigns Source as %s in %s but as %s in %s: creation and deletion do not name the same source", short, shapeString(ref.Shape), w.FnName(ref.Fn), shapeString(ss.Shape), w.FnName(ss.Fn))
+				}
+				// the variable parts must name the same thing: where both are recognisable (a method of the
+				// endpoint, a field, a parameter) they must be of the same kind
+				da, db := opaqueDescs(w, ref.St.Val, 0), opaqueDescs(w, ss.St.Val, 0)
+				if len(da) == len(db) {
+					for i := range da {
+						if da[i] != "?" && db[i] != "?" && !descCompatible(da[i], db[i]) {
+							ok = false
+							msg = fmt.Sprintf("%s fills the variable part of Source with %s in %s but with %s in %s: the identifier under which a source is removed is not the one it was created with", short, da[i], w.FnName(ref.Fn), db[i], w.FnName(ss.Fn))
+						}
+					}
 				}
 				r.Analysed(w.FnName(ss.Fn))
 			}
